@@ -11,6 +11,7 @@ DENY = ('std::thread::', 'std::sync::mpsc', 'std::sync::Mutex', 'std::sync::Cond
         'std::sync::Once', 'std::fs::', 'std::io::', 'std::net::', 'std::process::', 'std::os::', 'std::hint::spin_loop',
         'std::sync::poison', 'parking', 'futex', 'nix::', 'libc::')
 LIBC_OK = ('clock_gettime', '__errno_location')
+OPEN_OK = ('open', 'openat', 'open64', 'read', 'pread', 'mmap', 'mmap64', 'munmap', 'close', 'fstat', 'fstat64')
 ALLOW_PREFIX = ('std::', 'errno::', '<', 'clock_bound_shm::', 'clock_bound_client::', 'clockbound::')
 
 
@@ -448,6 +449,52 @@ def run_rules(ctx, chk):
                '%s is %s (%d site(s))' % (nm, 'non-blocking' if bad is None else bad, len(sites)))
     chk.floor('C18.B3', 'external callees classified', len(ext), 3)
     chk.tables['external_callees'] = sorted(ext)
+    # B5: the other client calls (opening and closing a session) are bounded as well: every loop they can reach has a
+    # ranking function, their call graph is acyclic and what they call outside the workspace is file access on the segment
+    # (open/read/mmap/close), never a member of a blocking family
+    opens = [b for b in fb.bodies(common.CLIENT) if b.defkind != 'Closure' and (b.impl_self or '').endswith('ClockBoundClient')
+             and b.name in ('new', 'new_with_path')] + \
+            [b for b in fb.bodies(common.FFI) if b.name in ('clockbound_open', 'clockbound_close')]
+    chk.floor('C18.B5', 'open / close entry points of the two client libraries', len(opens), 3)
+    clo2, edges2 = closure_of(fb, opens)
+    n_loops2 = 0
+    for path, b in sorted(clo2.items()):
+        if path in closure:
+            continue
+        chk.saw(b)
+        for tail, head in b.back_edges():
+            n_loops2 += 1
+            ok, why = ranking(b, head, tail)
+            chk.ob('C18.B5', 'open:loop:%s:ranking' % b.path.split('::')[-1], ok, b.where(head),
+                   why if ok else why + ' -- a client that opens a segment in this state never returns')
+    chk.ob('C18.B5', 'open:loops-all-ranked', True, '', '%d loop(s) on the open / close paths (%d functions beyond the now() closure)' % (
+        n_loops2, len([x for x in clo2 if x not in closure])), nontrivial=False)
+    color.clear()
+    del cyc[:]
+    edges = edges2
+    for e in opens:
+        if e.path not in color:
+            dfs(e.path, [])
+    chk.ob('C18.B5', 'open:call-graph-acyclic', not cyc, '', 'call-graph cycles: %s' % cyc[:2])
+    for path, b in sorted(clo2.items()):
+        if path in closure:
+            continue
+        for bb, t, fn in common.user_calls(b):
+            nm = mir.callee_name(fn) if fn else 'indirect'
+            if fb.body(nm) is not None:
+                continue
+            last = nm.split('::')[-1]
+            fam = [d for d in DENY if d in nm and d not in ('libc::', 'nix::', 'std::fs::', 'std::io::', 'std::os::')]
+            bad = None
+            if fam:
+                bad = 'member of a blocking family (%s)' % fam[0]
+            elif (nm.startswith('libc::') or '::libc::' in nm) and last not in LIBC_OK + OPEN_OK:
+                bad = 'libc call other than opening / reading / mapping / closing the segment file'
+            elif nm.startswith('nix::') and not ('nix::sys::time::' in nm or nm.startswith('nix::time::') or nm.startswith(('nix::errno', 'nix::fcntl::OFlag', 'nix::sys::stat::Mode', 'nix::sys::mman::ProtFlags', 'nix::sys::mman::MapFlags'))
+                                                 or last in OPEN_OK):
+                bad = 'nix call other than opening / reading / mapping / closing the segment file'
+            if bad is not None:
+                chk.ob('C18.B5', 'open:callee:%s' % nm[:90], False, b.where(bb), '%s is a %s' % (nm, bad))
     # B4 import
     from . import C03
     sub = type(chk)('C18', LEVEL, chk.tier)
